@@ -48,6 +48,10 @@ func refUnpad(d []byte, bs int) (int, bool) {
 }
 
 func plainLen(t *rapid.T) int {
+	if rapid.IntRange(0, 15).Draw(t, "long") == 0 {
+		// beyond one block run of the assembly implementations, around typical buffer sizes
+		return rapid.OneOf(rapid.SampledFrom([]int{127, 128, 129, 255, 256, 257, 511, 512, 1023, 1024, 1025, 4095, 4096, 4097, 65535, 65536, 65537}), rapid.IntRange(81, 6000)).Draw(t, "plenLong")
+	}
 	return rapid.OneOf(rapid.SampledFrom([]int{0, 1, 15, 16, 17, 31, 32, 33, 47, 48, 64}), rapid.IntRange(0, 80)).Draw(t, "plen")
 }
 
@@ -222,14 +226,14 @@ type gcmCase struct {
 func genGCM(t *rapid.T) gcmCase {
 	return gcmCase{
 		Key:          g.BytesLen(keyLen(t)).Draw(t, "key"),
-		Nonce:        g.BytesLen(rapid.OneOf(rapid.Just(12), rapid.IntRange(1, 16)).Draw(t, "nlen")).Draw(t, "nonce"),
-		AAD:          g.BytesLen(rapid.IntRange(0, 40).Draw(t, "alen")).Draw(t, "aad"),
+		Nonce:        g.BytesLen(rapid.OneOf(rapid.Just(12), rapid.IntRange(1, 16), rapid.IntRange(1, 40), rapid.SampledFrom([]int{15, 16, 17, 24, 31, 32, 33, 64, 100, 255, 256, 1000})).Draw(t, "nlen")).Draw(t, "nonce"),
+		AAD:          g.BytesLen(rapid.OneOf(rapid.IntRange(0, 40), rapid.IntRange(0, 40), rapid.SampledFrom([]int{127, 128, 129, 255, 256, 1000, 5000})).Draw(t, "alen")).Draw(t, "aad"),
 		Plain:        g.BytesLen(plainLen(t)).Draw(t, "plain"),
 		InPlaceEnc:   rapid.Bool().Draw(t, "inplaceEnc"),
 		InPlaceDec:   rapid.Bool().Draw(t, "inplaceDec"),
 		CorruptWhere: rapid.IntRange(0, 5).Draw(t, "where"),
 		CorruptBit:   rapid.IntRange(0, 1<<20).Draw(t, "bit"),
-		Nonce2:       g.BytesLen(rapid.IntRange(0, 16).Draw(t, "n2len")).Draw(t, "nonce2"),
+		Nonce2:       g.BytesLen(rapid.OneOf(rapid.IntRange(0, 16), rapid.SampledFrom([]int{17, 32, 33, 64})).Draw(t, "n2len")).Draw(t, "nonce2"),
 	}
 }
 
@@ -363,6 +367,8 @@ func runGCM(c gcmCase, r *pb.Rec) error {
 	r.ClassIf(c.CorruptWhere == 3, "aad corrupted")
 	r.ClassIf(c.InPlaceEnc || c.InPlaceDec, "in place")
 	r.ClassIf(len(c.Nonce) != 12, "non-standard nonce size")
+	r.ClassIf(len(c.Nonce) > 16, "nonce longer than one AES block")
+	r.ClassIf(len(c.Plain) > 256, "plaintext longer than 256 bytes")
 	r.NonTrivialIf(c.CorruptWhere != 0 || c.InPlaceEnc || c.InPlaceDec)
 	return nil
 }
@@ -571,8 +577,8 @@ func init() {
 		Rule: "keys 16/24/32, 16-byte IV, plaintext 0..80 biased to block boundaries, fresh (dirty) or documented in-place dst; oracle crypto/cipher CBC over reference PKCS#7, length helpers, decrypt == plaintext; non-trivial = block-aligned plaintext or in-place layout"},
 		genCBC, runCBC)
 	pb.Register("key_sizes", pb.Options{Base: 800, Rule: "every key length 0..40 for the four AES entry points; oracle error <=> length not in {16,24,32}; non-trivial = invalid length"}, genKey, runKey)
-	pb.Register("gcm", pb.Options{Base: 8000, Required: []string{"tag bit flipped", "nonce corrupted", "aad corrupted", "in place", "non-standard nonce size", "same key, two nonce sizes", "empty nonce rejected"},
-		Rule: "keys 16/24/32, nonce 1..16 bytes, AAD 0..40, plaintext 0..80, in-place layouts; single-bit flips over ciphertext||tag, nonce, AAD, truncation, extension; oracle crypto/cipher GCM Seal/Open; non-trivial = corruption or in-place case"},
+	pb.Register("gcm", pb.Options{Base: 8000, Required: []string{"tag bit flipped", "nonce corrupted", "aad corrupted", "in place", "non-standard nonce size", "nonce longer than one AES block", "plaintext longer than 256 bytes", "same key, two nonce sizes", "empty nonce rejected"},
+		Rule: "keys 16/24/32, nonce 1..40 bytes and 64/100/255/256/1000, AAD 0..40 and up to 5000, plaintext 0..80 and (1 in 16) up to 65537, in-place layouts; single-bit flips over ciphertext||tag, nonce, AAD, truncation, extension; oracle crypto/cipher GCM Seal/Open; non-trivial = corruption or in-place case"},
 		genGCM, runGCM)
 	pb.Register("pkcs7", pb.Options{Base: 12000, Required: []string{"full-block padding", "near-valid padding", "un-padding rejected", "un-padding accepted"},
 		Rule: "round trip for data 1..64 and block 1..255 (with spare capacity in the input); un-padding of arbitrary byte strings and of near-valid paddings (one pad byte wrong, pad 0, pad > block, length not a multiple); oracle reference strict un-padding (error <=> rejected, equal prefix); non-trivial = rejected multiple-of-block input or full-block/large-block round trip"},
